@@ -1,4 +1,5 @@
 import JoblibProofs.Lemmas.LokyMgr
+import JoblibProofs.Lemmas.LokyMgr.Wakeup
 /-!
 # C10 — a dying loky worker yields a prompt error, never a hang, and workers heal      (PARTIAL BY DESIGN)
 
@@ -24,6 +25,14 @@ FULL STATEMENT of the liveness part (kept visible, NOT proved — it is false of
 It fails exactly in the hazard state of F15 (`f15_hazard_reachable`, `f15_hazard_blocks_forever`): a worker
 killed after writing part of its result message. The proved fragment (`…_partial`) assumes
 `NoTornMessage`: "no worker dies between the first and the last byte of its result message".
+Sections 8–10 are about the FINE-GRAINED layer of the model (`WState`, `wstep`): the manager's wait set (rebuilt only
+when the thread re-enters `wait`), the wake-up pipe with its `_closed` flag, `_shutdown_lock`, `submit`/`shutdown` run
+statement by statement; quantifier reached there: every history of `WEvent`s from a fresh executor (any interleaving
+of caller statements, manager statements, worker/OS events). §8 is proved IN FULL for the code as it is (`Cfg.code`, which
+has the repair F53: `submit` wakes the manager thread AFTER `_ensure_executor_running()`): `wait_set_covers_live_workers`,
+`death_wakes_manager_wait_set` — any history, clean worker exits included. For the order BEFORE the repair (`Cfg.preF53`)
+the statement is false (`respawn_after_clean_exit_counterexample`; finding F53, reproduced on the code) and only the
+`…_partial` versions hold (histories without a clean worker exit).
 Also not a theorem: wall-clock latency ("prompt"), and that a healthy executor completes every task (that needs
 fairness of the OS scheduler); both are covered by the fault-injection runs only.
 -/
@@ -354,5 +363,296 @@ example : (getReusableExecutor idlePool 2 5 true false).2 = (0, true) := by deci
 example : (getExitcodeName [(9, "SIGKILL"), (34, "SIGRTMIN")] (-35)).toOption = some "UNKNOWN" := by decide
 example : (formatExitcodes [(9, "SIGKILL")] [-9, -35, 3, 255]).toOption =
     some "{SIGKILL(-9), UNKNOWN(-35), EXIT(3), UNKNOWN(255)}" := by decide
+
+/-! ## 8. The wait set of the manager thread and the start order (fine-grained layer) -/
+
+/-- THE WAIT SET COVERS THE PROCESSES, OR A WAKE-UP IS ON ITS WAY (the code as it is: `wakeup()` is the LAST statement of
+`submit`, `cfg.wakeupBeforeRespawn = false`; either start order of `_ensure_executor_running`, with or without the lock
+around `close`). After ANY history from a fresh executor — any interleaving of the caller's statements inside any number
+of `submit`s / `shutdown`s, the manager's statements, worker and OS events, kills, CLEAN EXITS (idle time-outs) and the
+respawns that follow them —: whenever the manager thread is inside `wait`, the sentinel of every process of the executor is
+in the list it waits on, or a wake-up byte is in the pipe, or the caller is still inside the `submit` that spawned the
+missing processes, before the write of its wake-up. (The list is rebuilt only when the thread re-enters `wait`, so "always
+covered" is not true of any order; this is what makes the thread look again.) -/
+theorem wait_set_covers_live_workers (cfg : Cfg) (hcfg : cfg.wakeupBeforeRespawn = false) (fn : Nat → Nat)
+    (mw qs fp : Nat) (evs : List WEvent) (ws : List Nat) :
+    let s := wrun cfg fn (WState.init mw qs fp) evs
+    s.base.mgr = .running → s.mph = .waiting ws →
+    (∀ w ∈ s.base.processes, w.pid ∈ ws) ∨ s.base.wakeups > 0 ∨ preWrite s.cpc = true :=
+  (wakeInv_run cfg hcfg fn _ (wakeInv_init mw qs fp) evs).cover ws
+
+/-- `death_wakes_manager` for the wait set the thread REALLY waits on, for the code as it is, after ANY history: with the
+caller outside `submit` (it is waiting for its futures) and a dead process among the executor's processes, `wait` returns
+— the dead process's sentinel is in the list, or a wake-up is pending —: the iteration does not end asleep. In particular
+for a one-batch call on a fresh executor, and for a one-batch call on an executor whose workers had all left by idle
+time-out (F53). -/
+theorem death_wakes_manager_wait_set (cfg : Cfg) (hcfg : cfg.wakeupBeforeRespawn = false) (fn : Nat → Nat)
+    (mw qs fp : Nat) (evs : List WEvent) (ws : List Nat) (p : Nat) :
+    let s := wrun cfg fn (WState.init mw qs fp) evs
+    s.base.mgr = .running → s.mph = .waiting ws → preWrite s.cpc = false → DeadIn s.base p →
+    waitReady s.base ws = true ∧ (waitStep s.base ws).2 ≠ .blockedInWait ∧ s.asleep = false := by
+  intro s hr hw hpc hd
+  have hready : waitReady s.base ws = true := by
+    rcases wait_set_covers_live_workers cfg hcfg fn mw qs fp evs ws hr hw with c | c | c
+    · obtain ⟨w, hmem, hp, ha⟩ := hd
+      exact (waitStep_dead_waited s.base ws p ⟨w, hmem, hp, ha⟩ (hp ▸ c w hmem)).1
+    · have c' : s.base.wakeups > 0 := c
+      simp only [waitReady, Bool.or_eq_true, decide_eq_true_eq]
+      exact Or.inl (Or.inr c')
+    · rw [hpc] at c; cases c
+  refine ⟨hready, waitStep_ready_not_blocked s.base ws hready, ?_⟩
+  simp [WState.asleep, hr, hw, hready]
+
+/-- PARTIAL — the order BEFORE the repair F53 (and any other; hypothesis `NoCleanExit`: no worker leaves cleanly — idle time-out, memory-leak restart — in the history).
+In the code's order (`_adjust_process_count()` BEFORE `_start_executor_manager_thread()`; `cfg.managerFirst = false`,
+with or without the lock around `close`), after ANY history from a fresh executor — any interleaving of the caller's
+statements inside any number of `submit`s / `shutdown`s, the manager's statements, worker and OS events, kills —:
+whenever the manager thread is inside `wait`, the sentinel of EVERY process of the executor (live or dead) is in the
+list it waits on.
+Missing for the full statement: after a clean exit `len(_processes) < max_workers`, the next `submit` respawns the
+missing workers AFTER its wake-up, and the manager may have consumed the wake-up and re-entered `wait` before:
+`respawn_after_clean_exit_counterexample` (confirmed on the code: builders_notes/C10-wakeup.md). -/
+theorem wait_set_covers_live_workers_partial (cfg : Cfg) (hcfg : cfg.managerFirst = false) (fn : Nat → Nat)
+    (mw qs fp : Nat) (evs : List WEvent) (hev : NoCleanExit evs) (ws : List Nat) :
+    let s := wrun cfg fn (WState.init mw qs fp) evs
+    s.base.mgr = .running → s.mph = .waiting ws → ∀ w ∈ s.base.processes, w.pid ∈ ws :=
+  (coverInv_run cfg hcfg fn _ (coverInv_init mw qs fp) evs hev).cover ws
+
+/-- PARTIAL (same hypothesis). `death_wakes_manager` for the wait set the thread REALLY waits on — in particular for a
+call made of ONE batch on a FRESH executor (history = one `callSubmit`, then anything), where the single wake-up of
+`submit` is consumed before the workers run: a dead process's sentinel is in the list built at the entry of the wait, so
+`wait` returns, the iteration does not end asleep, and the manager is not `asleep`. -/
+theorem death_wakes_manager_wait_set_partial (cfg : Cfg) (hcfg : cfg.managerFirst = false) (fn : Nat → Nat)
+    (mw qs fp : Nat) (evs : List WEvent) (hev : NoCleanExit evs) (ws : List Nat) (p : Nat) :
+    let s := wrun cfg fn (WState.init mw qs fp) evs
+    s.base.mgr = .running → s.mph = .waiting ws → DeadIn s.base p →
+    p ∈ ws ∧ waitReady s.base ws = true ∧ (waitStep s.base ws).2 ≠ .blockedInWait ∧ s.asleep = false := by
+  intro s hr hw hd
+  obtain ⟨w, hmem, hp, _⟩ := hd
+  have hin : p ∈ ws := hp ▸ wait_set_covers_live_workers_partial cfg hcfg fn mw qs fp evs hev ws hr hw w hmem
+  obtain ⟨h1, h2⟩ := waitStep_dead_waited s.base ws p ⟨w, hmem, hp, ‹_›⟩ hin
+  refine ⟨hin, h1, h2, ?_⟩
+  simp [WState.asleep, hr, hw, h1]
+
+/-- The instance the round-4 seeded change was about, for the order before F53: ONE `submit` on a fresh executor
+(`callSubmit arg`, then anything), any worker killed at any point. -/
+theorem death_wakes_manager_single_batch_partial (fn : Nat → Nat) (mw qs fp arg : Nat) (evs : List WEvent)
+    (hev : NoCleanExit evs) (ws : List Nat) (p : Nat) :
+    let s := wrun Cfg.preF53 fn (WState.init mw qs fp) (.callSubmit arg :: evs)
+    s.base.mgr = .running → s.mph = .waiting ws → DeadIn s.base p → p ∈ ws ∧ s.asleep = false := by
+  intro s hr hw hd
+  have hev' : NoCleanExit (.callSubmit arg :: evs) := by
+    intro q hq
+    rcases List.mem_cons.mp hq with h | h
+    · cases h
+    · exact hev q h
+  obtain ⟨h1, _, _, h4⟩ :=
+    death_wakes_manager_wait_set_partial Cfg.preF53 rfl fn mw qs fp (.callSubmit arg :: evs) hev' ws p hr hw hd
+  exact ⟨h1, h4⟩
+
+/-- With the sentinels of all current processes in the wait set, the fine manager (`add_call_item_to_queue`, then the
+wait step) IS one `managerStep` of the coarse model the sections 1–7 are about. -/
+theorem full_wait_set_is_manager_step (s : State) (hr : s.mgr = .running) (hc : (addCallItems s).mgr ≠ .crashed) :
+    waitStep (addCallItems s) (pidsOf (addCallItems s).processes) = managerStep s :=
+  waitStep_all s hr hc
+
+/-- (Order of `submit` before F53.) One task submitted to a fresh two-worker executor in the OTHER start order (manager
+thread started before the workers are spawned — `managerFirst`): the manager consumes the wake-up and re-enters `wait` with an EMPTY sentinel list, then
+the workers are spawned, worker 100 takes the task and is killed. -/
+def managerFirstEvents : List WEvent :=
+  [.callSubmit 5, .caller, .caller,        -- registered; `wakeup()`: test, write
+   .caller,                                 -- `_start_executor_manager_thread()` first
+   .manager, .manager,                      -- `add_call_item_to_queue`, wait on []; wake-up consumed
+   .manager,                                -- next iteration: wait on [] again
+   .caller, .caller, .caller,               -- `_adjust_process_count`: two workers; `submit` returns
+   .env (.take 100), .env (.kill 100)]
+
+/-- COUNTEREXAMPLE for the other start order: the state reached has a DEAD worker holding the task, its sentinel is NOT
+in the wait set, no wake-up is pending, the pipe is empty, the other worker is idle, the call queue is empty — the
+manager is asleep, the future stays `running`: a permanent hang (nothing but a further `submit`/`shutdown` of the caller —
+who is waiting for this very future — or the idle worker's time-out can wake the thread:
+`manager_first_hang_is_permanent`). The same history in the code's start order leaves the manager awake; and with the
+repair F53 (wake-up last) the other start order is harmless too (`wait_set_covers_live_workers` does not ask for
+`managerFirst = false`): last conjunct. -/
+theorem manager_first_counterexample :
+    let s := wrun ⟨true, false, true⟩ id (WState.init 2 5 100) managerFirstEvents
+    s.base.mgr = .running ∧ s.mph = .waiting [] ∧ s.cpc = .idle ∧ DeadIn s.base 100 ∧
+    100 ∉ ([] : List Nat) ∧ s.base.wakeups = 0 ∧ s.base.result_pipe = [] ∧ s.base.partialMsg = none ∧
+    s.base.call_queue = [] ∧ s.asleep = true ∧ s.base.futures.map (·.st) = [.running] ∧
+    (wrun Cfg.preF53 id (WState.init 2 5 100) managerFirstEvents).asleep = false ∧
+    (wrun ⟨true, false, false⟩ id (WState.init 2 5 100)
+      [.callSubmit 5, .caller, .manager, .manager, .caller, .caller, .caller, .caller, .caller,
+       .env (.take 100), .env (.kill 100)]).asleep = false := by
+  refine ⟨by decide, by decide, by decide, ⟨⟨100, false, some ⟨0, 5⟩, false, false⟩, by decide, rfl, rfl⟩,
+    by decide, by decide, by decide, by decide, by decide, by decide, by decide, by decide, by decide⟩
+
+/-- …and that hang is permanent: from the state of `manager_first_counterexample`, whatever the workers, the OS and the
+manager thread do afterwards (`Quiet`: every event but a further `submit`/`shutdown` of the caller — who is blocked on
+this very future — and a clean exit of the idle worker, i.e. its idle time-out), the manager stays asleep and the futures
+stay as they are. -/
+theorem manager_first_hang_is_permanent (evs : List WEvent) (hq : ∀ e ∈ evs, Quiet e) :
+    let s := wrun ⟨true, false, true⟩ id (WState.init 2 5 100) managerFirstEvents
+    (wrun ⟨true, false, true⟩ id s evs).asleep = true ∧
+    (wrun ⟨true, false, true⟩ id s evs).base.futures.map (·.st) = [.running] := by
+  intro s
+  have hs : Stranded s := by
+    refine ⟨by decide, by decide, by decide, by decide, by decide, by decide, by decide, ?_⟩
+    have hp : s.base.processes = [⟨100, false, some ⟨0, 5⟩, false, false⟩, ⟨101, true, none, false, false⟩] := by decide
+    intro w hw
+    rw [hp] at hw
+    simp only [List.mem_cons, List.not_mem_nil, or_false] at hw
+    rcases hw with rfl | rfl
+    · exact Or.inl rfl
+    · exact Or.inr ⟨rfl, rfl⟩
+  obtain ⟨h1, h2⟩ := stranded_run ⟨true, false, true⟩ id s hs evs hq
+  refine ⟨stranded_asleep h1, ?_⟩
+  rw [h2]; decide
+
+/-- The order of `submit` BEFORE the repair F53 (`Cfg.preF53`), two workers, one task served; worker 101 then leaves cleanly (idle time-out) and is reaped; the
+NEXT `submit` writes its wake-up, the manager consumes it and re-enters `wait` on `[100]`, THEN `submit` respawns the
+missing worker (pid 102), which takes the task and is killed. -/
+def respawnEvents : List WEvent :=
+  [.callSubmit 5, .caller, .caller, .caller, .caller, .caller, .caller,
+   .manager, .manager, .manager, .env (.take 100), .env (.sendResult 100), .manager, .manager,
+   .env (.announceExit 101), .manager, .manager,
+   .callSubmit 6, .caller, .caller,          -- second call: registered; wake-up written
+   .manager, .manager,                       -- wake-up consumed; wait on [100]
+   .caller, .caller, .caller,                -- `_ensure_executor_running`: worker 102 spawned; `submit` returns
+   .env (.take 102), .env (.kill 102)]
+
+/-- The same schedule with the repair F53 (`Cfg.code`): the second `submit` respawns worker 102 (killed at once) and THEN
+writes its wake-up. -/
+def respawnEventsF53 : List WEvent :=
+  [.callSubmit 5, .caller, .caller, .caller, .caller, .caller, .caller,
+   .manager, .manager, .manager, .env (.take 100), .env (.sendResult 100), .manager, .manager,
+   .env (.announceExit 101), .manager, .manager,
+   .callSubmit 6,
+   .manager,                                 -- (asleep: no wake-up yet)
+   .caller, .caller, .caller, .caller, .caller,   -- worker 102 spawned; manager already started; `wakeup()`: test, write
+   .env (.take 102), .env (.kill 102)]
+
+/-- COUNTEREXAMPLE (finding F53) to `wait_set_covers_live_workers` / `death_wakes_manager_wait_set` FOR THE ORDER BEFORE
+THE REPAIR (`Cfg.preF53`, the code's own start order): after a clean exit the respawned worker 102 is dead, holds the
+task, and is not in the wait set `[100]`; no wake-up is pending, the caller is outside `submit`: the manager is asleep and
+the second call's future stays `running` — until something else wakes the thread (in the code: the idle time-out of
+another worker, `idle_worker_timeout` = 300 s by default in joblib; reproduced, builders_notes/C10-wakeup.md).
+With the repair (`Cfg.code`) the analogous schedule leaves a wake-up pending, the manager is not asleep and three
+iterations later the call's future carries `TerminatedWorkerError`. -/
+theorem respawn_after_clean_exit_counterexample :
+    let s := wrun Cfg.preF53 id (WState.init 2 5 100) respawnEvents
+    s.base.mgr = .running ∧ s.mph = .waiting [100] ∧ s.cpc = .idle ∧ DeadIn s.base 102 ∧ 102 ∉ [100] ∧
+    s.base.wakeups = 0 ∧ s.asleep = true ∧ s.base.futures.map (·.st) = [.result 5, .running] ∧
+    (let s' := wrun Cfg.code id (WState.init 2 5 100) respawnEventsF53
+     s'.mph = .waiting [100] ∧ DeadIn s'.base 102 ∧ s'.base.wakeups = 1 ∧ s'.asleep = false ∧
+     (wrun Cfg.code id s' [.manager, .manager, .manager]).base.futures.map (·.st) =
+       [.result 5, .exception .terminatedWorker]) := by
+  refine ⟨by decide, by decide, by decide, ⟨⟨102, false, some ⟨1, 6⟩, false, false⟩, by decide, rfl, rfl⟩, by decide,
+    by decide, by decide, by decide, by decide, ⟨⟨102, false, none, false, false⟩, by decide, rfl, rfl⟩, by decide,
+    by decide, by decide⟩
+
+/-! ## 9. The wake-up pipe and the shutdown lock -/
+
+/-- With `close` under the lock (`cfg.closeUnlocked = false`; either start order), after ANY history: no `wakeup()` has
+ever written to a closed pipe (`oserror = false`: neither `submit` nor `shutdown` raised `OSError`), and whenever the
+caller stands between the `_closed` test and the write, it holds the lock and the pipe is still open — so the write
+that follows succeeds. -/
+theorem wakeup_never_writes_to_closed_pipe (cfg : Cfg) (hcfg : cfg.closeUnlocked = false) (fn : Nat → Nat)
+    (mw qs fp : Nat) (evs : List WEvent) :
+    let s := wrun cfg fn (WState.init mw qs fp) evs
+    s.oserror = false ∧ (s.cpc = .subWrite ∨ s.cpc = .shutWrite → s.lock = true ∧ s.closed = false) := by
+  intro s
+  have h := lockInv_run cfg hcfg fn _ (lockInv_init mw qs fp) evs
+  refine ⟨h.noerr, fun hw => ⟨?_, h.writing hw⟩⟩
+  rw [h.held]
+  rcases hw with hw | hw <;> rw [hw] <;> rfl
+
+/-- …and the manager cannot close the pipe meanwhile: with the caller between test and write, the manager's statement
+leaves `closed` as it is (it waits for the lock). -/
+theorem close_waits_for_the_writer (cfg : Cfg) (hcfg : cfg.closeUnlocked = false) (fn : Nat → Nat)
+    (mw qs fp : Nat) (evs : List WEvent) :
+    let s := wrun cfg fn (WState.init mw qs fp) evs
+    s.cpc = .subWrite ∨ s.cpc = .shutWrite → (wstep cfg fn s .manager).closed = false := by
+  intro s hw
+  obtain ⟨_, h2⟩ := wakeup_never_writes_to_closed_pipe cfg hcfg fn mw qs fp evs
+  obtain ⟨hl, hc⟩ := h2 hw
+  obtain ⟨_, _, _, f4⟩ := managerMicro_frame cfg s
+  rcases f4 with f4 | f4 | f4
+  · show (managerMicro cfg s).closed = false
+    rw [f4]; exact hc
+  · rw [hl] at f4; cases f4
+  · rw [hcfg] at f4; cases f4
+
+/-- One task, its worker killed; the manager tears the executor down (`terminate_broken` … `join_executor_internals`)
+while the caller aborts the call (`shutdown(kill_workers=True)`): flag, lock, `_closed` tested (open) — the manager
+closes the pipe — the caller writes. -/
+def closeRaceEvents : List WEvent :=
+  [.callSubmit 5, .caller, .caller, .caller, .caller, .caller, .caller,
+   .manager, .manager, .manager,
+   .env (.take 100), .env (.kill 100),
+   .manager,                                 -- the death is seen: `terminate_broken`, up to the close of the pipe
+   .callShutdown true, .caller, .caller,     -- the abort: flags; lock taken; `if not self._closed` (open)
+   .manager,                                 -- `thread_wakeup.close()`
+   .caller]                                  -- `send_bytes`
+
+/-- COUNTEREXAMPLE without the lock around `close` (`closeUnlocked`): the caller's write hits the closed pipe, the abort
+raises `OSError` and THAT is what the `Parallel` call raises instead of the `TerminatedWorkerError` its future carries.
+With the lock (the code) the same history ends with the pipe open at the write, no `OSError`, the future's error raised. -/
+theorem close_unlocked_counterexample :
+    let s := wrun ⟨false, true, false⟩ id (WState.init 2 5 100) closeRaceEvents
+    s.oserror = true ∧ s.base.futures.map (·.st) = [.exception .terminatedWorker] ∧
+    s.raised .terminatedWorker = .osError ∧
+    (let s' := wrun Cfg.code id (WState.init 2 5 100) closeRaceEvents
+     s'.oserror = false ∧ s'.closed = false ∧ s'.mph = .closing ∧
+     s'.raised .terminatedWorker = .exc .terminatedWorker) := by
+  decide
+
+/-! ## 10. The caller's abort -/
+
+/-- What the tear-down after a death stores in the flags — hence what `submit` re-raises and what every failed future
+carries — is a worker-termination error (`TerminatedWorkerError` or `BrokenProcessPool`), whatever the wait set. -/
+theorem death_error_is_worker_termination (s : State) (ws : List Nat) :
+    (waitStep s ws).1.flags.broken = s.flags.broken ∨
+    (waitStep s ws).1.flags.broken = some .terminatedWorker ∨ (waitStep s ws).1.flags.broken = some .brokenPool :=
+  waitStep_broken_kind s ws
+
+/-- With the lock (the code), after ANY history the caller's abort (`shutdown` → `wakeup()`) has not raised: a failed
+call re-raises exactly the error `e` its future carries — a worker-termination error by
+`death_error_is_worker_termination` and `terminate_broken_resolves_all` —, never an `OSError` of the abort itself. -/
+theorem abort_raises_only_worker_termination (cfg : Cfg) (hcfg : cfg.closeUnlocked = false) (fn : Nat → Nat)
+    (mw qs fp : Nat) (evs : List WEvent) (e : Exc) :
+    (wrun cfg fn (WState.init mw qs fp) evs).raised e = .exc e := by
+  have h := (wakeup_never_writes_to_closed_pipe cfg hcfg fn mw qs fp evs).1
+  simp only [WState.raised] at *
+  simp [h]
+
+/-! ### Non-vacuity of sections 8–10 -/
+
+/-- The code's order, one task, worker 100 killed holding it: no clean exit in the history, the manager is inside `wait`
+on `[100, 101]`, a dead worker is among the processes — the hypotheses of `death_wakes_manager_wait_set_partial`. -/
+def coveredEvents : List WEvent :=
+  [.callSubmit 5, .caller, .caller, .caller, .caller, .caller, .caller, .manager, .manager, .manager,
+   .env (.take 100), .env (.kill 100)]
+
+example : NoCleanExit coveredEvents := by intro p h; simp [coveredEvents] at h
+example : let s := wrun Cfg.code id (WState.init 2 5 100) coveredEvents
+    s.base.mgr = .running ∧ s.mph = .waiting [100, 101] ∧ s.base.wakeups = 0 ∧ s.asleep = false ∧
+    (wstep Cfg.code id s .manager).base.futures.map (·.st) = [.exception .terminatedWorker] := by decide
+/-- `submit` run statement by statement without interruption is the coarse `submit`. -/
+example : (wrun Cfg.code id (WState.init 2 5 100) [.callSubmit 5, .caller, .caller, .caller, .caller, .caller, .caller]).base
+    = (submit (State.init 2 5 100) 5).1 := by decide
+/-- The caller between test and write, the manager at the close: reachable (hypothesis of `close_waits_for_the_writer`). -/
+example : let s := wrun Cfg.code id (WState.init 2 5 100) (closeRaceEvents.take 16)
+    s.cpc = .shutWrite ∧ s.mph = .closing ∧ s.lock = true ∧ (wstep Cfg.code id s .manager) = s := by decide
+/-- The hypotheses of `death_wakes_manager_wait_set` after a history WITH a clean exit and a respawn (the code as it is):
+manager inside `wait` on `[100]`, the caller outside `submit`, the respawned worker 102 dead and NOT in the wait set — and
+a wake-up pending, as `wait_set_covers_live_workers` says. -/
+example : let s := wrun Cfg.code id (WState.init 2 5 100) respawnEventsF53
+    s.base.mgr = .running ∧ s.mph = .waiting [100] ∧ preWrite s.cpc = false ∧ s.base.wakeups = 1 ∧
+    s.base.processes.map (·.pid) = [100, 102] := by decide
+example : DeadIn (wrun Cfg.code id (WState.init 2 5 100) respawnEventsF53).base 102 :=
+  ⟨⟨102, false, none, false, false⟩, by decide, rfl, rfl⟩
+/-- `Quiet` continuations exist: kills, worker events, manager iterations. -/
+example : ∀ e ∈ [WEvent.manager, .env (.kill 101), .env (.sendResult 100), .caller, .manager], Quiet e := by
+  intro e he; simp at he; rcases he with rfl | rfl | rfl | rfl | rfl <;> trivial
 
 end C10
